@@ -12,15 +12,29 @@ pub enum EntryKind {
     Dir,
 }
 
+/// How an entry's effective path is made to differ from the name in its own header.
+#[derive(Clone, Copy, Debug, PartialEq, Eq, Serialize, Deserialize)]
+#[serde(rename_all = "snake_case")]
+pub enum Via {
+    /// a GNU long-name record (type `L`) in front of the entry
+    GnuLongName,
+    /// a PAX extended header (type `x`) with a `path=` record in front of the entry
+    Pax,
+}
+
 #[derive(Clone, Debug, PartialEq, Eq)]
 pub struct Entry {
+    /// the effective path (where an unpacker writes the entry)
     pub path: String,
     pub kind: EntryKind,
+    /// `Some((name, via))`: the entry's own header carries `name`; `path` is supplied by a
+    /// preceding long-name / PAX record (legal tar, the way long paths are stored)
+    pub disguise: Option<(String, Via)>,
 }
 
 impl Entry {
     pub fn file(path: &str, bytes: Vec<u8>) -> Entry {
-        Entry { path: path.to_string(), kind: EntryKind::File(bytes) }
+        Entry { path: path.to_string(), kind: EntryKind::File(bytes), disguise: None }
     }
 }
 
@@ -92,7 +106,32 @@ fn raw_header(path: &str, kind: &EntryKind) -> tar::Header {
 pub fn build_tar(entries: &[Entry]) -> Vec<u8> {
     let mut b = tar::Builder::new(Vec::new());
     for e in entries {
-        let h = raw_header(&e.path, &e.kind);
+        let h = match &e.disguise {
+            None => raw_header(&e.path, &e.kind),
+            Some((name, via)) => {
+                let (record_type, record_name, data) = match via {
+                    Via::GnuLongName => {
+                        let mut d = e.path.as_bytes().to_vec();
+                        d.push(0);
+                        (tar::EntryType::GNULongName, "././@LongLink", d)
+                    }
+                    Via::Pax => {
+                        // "<len> path=<value>\n" where <len> counts the whole record
+                        let body = format!(" path={}\n", e.path);
+                        let mut len = body.len() + 1;
+                        while len.to_string().len() + body.len() != len {
+                            len = len.to_string().len() + body.len();
+                        }
+                        (tar::EntryType::XHeader, "PaxHeaders.0/entry", format!("{len}{body}").into_bytes())
+                    }
+                };
+                let mut r = raw_header(record_name, &EntryKind::File(data.clone()));
+                r.set_entry_type(record_type);
+                r.set_cksum();
+                b.append(&r, data.as_slice()).expect("tar append");
+                raw_header(name, &e.kind)
+            }
+        };
         match &e.kind {
             EntryKind::File(bytes) => b.append(&h, bytes.as_slice()).expect("tar append"),
             _ => b.append(&h, std::io::empty()).expect("tar append"),
